@@ -11,8 +11,8 @@ RULE = ("westfall_young driven by a scripted Randomizer and table-lookup test fu
         "non-trivial = more than one hypothesis or a tie with the observed statistic; distinct by table and options")
 LEVEL = ("theorems wy_minp_raw_spec, wy_minp_adj_ge_raw, wy_minp_range, wy_minp_order, wy_minp_min_is_rank, "
          "wy_minp_fwer_exact (+ maxT analogues) for every table; Relabel.wy_minp_relabel / wy_maxt_relabel (relabelling equivariance for distinct raw p-values / statistics, every relabelling); model validated against npc.westfall_young")
-ASSUMPTIONS = ["maxT with a per-test list mixing 'greater' and 'two-sided' is not modelled (the sort key of the code depends on the "
-               "last test only); mixed lists are checked for minP",
+ASSUMPTIONS = ["maxT with a per-test list mixing 'greater' and 'two-sided': every hypothesis enters on its own scale (Model wyMaxTL; the "
+               "code did otherwise until repair D17, commit 82fd866)",
                "+-inf statistics are passed to the exact oracle and the model as +-10^6 (an order embedding: only comparisons, negation and absolute values are taken); NaN statistics are outside the domain"]
 
 
@@ -97,7 +97,7 @@ def run(ctx):
             alts = "greater"; two = [False] * m
         elif a < 0.7:
             alts = "two-sided"; two = [True] * m
-        elif a < 0.85 or method == "maxT":
+        elif a < 0.8:
             t_ = ctx.rng.random() < 0.5; alts = ["two-sided" if t_ else "greater"] * m; two = [t_] * m
         else:
             two = [ctx.rng.random() < 0.5 for _ in range(m)]; alts = ["two-sided" if t_ else "greater" for t_ in two]
@@ -129,8 +129,8 @@ def run(ctx):
             det.update({"issue": why, "returned": [adjl, rawl], "expected": [[float(v) for v in wadj], [float(v) for v in wraw]]})
             ctx.violation("oracle", det, site="westfall_young"); continue
         # relabelling permutes the result (distinct raw p-values for minP / distinct statistics for maxT)
-        key = wraw if method == "minP" else [abs(Fr(v)) if two[0] else Fr(v) for v in tsq]
-        if m > 1 and len(set(key)) == m and (method == "minP" or len(set(two)) == 1):
+        key = wraw if method == "minP" else [abs(Fr(v)) if two[c_] else Fr(v) for c_, v in enumerate(tsq)]
+        if m > 1 and len(set(key)) == m:
             perm = list(range(m)); ctx.rng.shuffle(perm)
             e2, tests2, _ = scripted_experiment([[row[j] for j in perm] for row in tv], [ts[j] for j in perm])
             alts2 = alts if isinstance(alts, str) else [alts[j] for j in perm]
@@ -141,10 +141,10 @@ def run(ctx):
                 ctx.violation("oracle", det, site="westfall_young"); continue
         if method == "minP":
             ops.append(f"wyminp|{' '.join('1' if t_ else '0' for t_ in two)}|{rats(tsq)}|{rows(tvq)}")
-        elif len(set(two)) == 1:
+        elif len(set(two)) == 1 and ctx.rng.random() < 0.7:
             ops.append(f"wymaxt|{int(two[0])}|{rats(tsq)}|{rows(tvq)}")
-        else:
-            continue
+        else:       # per-test list of alternatives (after repair D17 also mixed ones)
+            ops.append(f"wymaxtl|{' '.join('1' if t_ else '0' for t_ in two)}|{rats(tsq)}|{rows(tvq)}")
         meta.append((det, adjl, rawl))
     # ---- exact FWER by rotation: every row in turn is the observed one
     for _ in range(ctx.n(60, 600)):
